@@ -35,8 +35,9 @@ impl SingleQuery {
             format!("?{}", self.var_order.len())
         } else {
             for i in 0..self.var_order.len() {
-                let p = &self.var_order[i].value;
-                if value.eq(p) {
+                //internal entries are literal values: only a variable can be reused
+                let p = &self.var_order[i];
+                if !p.internal && value.eq(&p.value) {
                     return format!("?{}", i + 1);
                 }
             }
